@@ -4,6 +4,7 @@ import LenaModel.Model.C07
 import LenaModel.Model.C07Tok
 import LenaModel.Model.C07Ext
 import LenaModel.Model.C07Mut
+import LenaModel.Model.C07Share
 /-! Model driver for C07.  Values: a leaf is an integer (the class of the Python leaf under `==`),
 a dictionary is the array of its slots over the case's sorted key alphabet, `null` = key absent.
 Every reply `R` below is sent as `{"z": "<R compressed>"}` (see `handleZ`), errors as `{"err": …}`.
@@ -32,6 +33,10 @@ Requests (`n` = size of the alphabet, `falsy` = leaf classes that are false in b
   {"op":"zip","n":n,"zk":k,"values":[D..],"falsy":[..]} -> {"common":D,"zip":[D..]|null,"recs":[D..]} | {"e":"Other:TypeError"}
   {"op":"group","n":n,"o":k,"ch":k,"tt":c,"ff":c,"ctxs":[D..],"falsy":[..]} -> {"ctx":D,"inter":D,"recs":[D..]}
   {"op":"uwg","n":n,"o":k,"ch":k,"tt":c,"ff":c,"ctx":D,"new":[D..],"old":D[,"oldgrp":[D..]],"falsy":[..]} -> {"ctx":D}
+  {"op":"share","n":n,"levels":[..],"args":[T..],"c":c,"falsy":[..]} -> {"r":[{"inter":Traw,"ierase":D[,"diff":T][,"obj":Traw]}, … per level],"copy":Traw}
+      (arguments whose identities may repeat — one object at several places, within and between arguments: intersection
+      with the memoising deepcopy, `interS`; `copy` = memoCopyV of the first argument; with two arguments also
+      `diffArgs` and, for level ≠ 0, `obj` = `interObj2`: the loop executed as stores into the object `res`.  Traw: identities as they are — the harness compares the sharing pattern)
   {"op":"mutupd","d":T,"other":T,"c":c} -> {"d":T,"log":[ids]} | {"e":"LenaTypeError"}   (write log of update_recursively)
   {"op":"mutnest","k":k,"d":T,"other":T,"c":c} -> {"d":T,"log":[ids]} | {"e":"Other:TypeError"} -/
 open Lean Lena Lena.Drv Lena.Val Lena.C07
@@ -87,6 +92,21 @@ partial def ofTVal (c0 : Nat) : TVal Int → Json
   | .dict t l => Json.mkObj [("t", norm c0 t),
       ("s", Json.arr (l.map (fun | none => Json.null | some v => ofTVal c0 v)).toArray)]
 where norm (c0 t : Nat) : Json := if t ≥ c0 then ofInt (-1) else ofNat t
+
+partial def ofTValRaw : TVal Int → Json
+  | .leaf ts a => Json.mkObj [("l", ofInt a), ("t", Json.arr (ts.map ofNat).toArray)]
+  | .dict t l => Json.mkObj [("t", ofNat t),
+      ("s", Json.arr (l.map (fun | none => Json.null | some v => ofTValRaw v)).toArray)]
+
+def shareAt (truthy : Int → Bool) (n c : Nat) (args : List (TVal Int)) (lv : Int) : Json :=
+  let ti := (interS n lv c args).1
+  Json.mkObj ([("inter", ofTValRaw ti), ("ierase", ofVal (eraseV ti))] ++
+    (match args with
+     | [.dict t l0, b] =>
+       [("diff", ofTVal c (diffArgs truthy lv (.dict t l0) b c).1)] ++
+       -- the loop executed as stores into the one object `res` (every occurrence changes): `inter_object_level`
+       (if lv = 0 then [] else [("obj", ofTValRaw (interObj2 lv c t l0 (argSlotsS b)).1)])
+     | _ => []))
 
 def logJson (c : Nat) (l : List Nat) : Json := Json.arr (l.map (normTok c)).toArray
 
@@ -289,6 +309,15 @@ def handle (j : Json) : Json :=
         Json.mkObj [("r", ofTVal c (interArgs n lv c args).1), ("log", logJson c (interArgsLog lv c args))]
       else err "tokn: not well-formed"
     | _, _, _, _ => err "bad tokn args"
+  | some "share" =>
+    match nat? (getD j "n"), nat? (getD j "c"), intList? (getD j "levels"),
+        (arr? (getD j "args")).bind (fun a => a.toList.mapM toTVal) with
+    | some n, some c, some lvs, some args =>
+      if args.all (fun a => wfB n (eraseV a) && (eraseV a).isDict) then
+        Json.mkObj [("r", Json.arr (lvs.map (shareAt (truthyOf j) n c args)).toArray),
+          ("copy", match args with | a :: _ => ofTValRaw (memoCopyV a c).1 | [] => Json.null)]
+      else err "share: not well-formed"
+    | _, _, _, _ => err "bad share args"
   | some "mutseq" =>
     match toTVal (getD j "d"), (arr? (getD j "others")).bind (fun a => a.toList.mapM toTVal), nat? (getD j "c") with
     | some d, some os, some c => Json.mkObj [("steps", Json.arr (mutSeq c d os c).toArray)]
